@@ -13,13 +13,14 @@ import (
 	"fmt"
 	"strconv"
 	"strings"
+	"time"
 
 	"github.com/blinklabs-io/gouroboros/kes"
 	"golang.org/x/crypto/blake2b"
 )
 
 func init() {
-	register(&Prop{ID: "C39", Gen: genC39, Run: runC39})
+	register(&Prop{ID: "C39", Gen: genC39, Run: runC39, Timeout: 3 * time.Minute})
 }
 
 // ---- primitives (definitions, not the KES algorithm)
@@ -261,8 +262,65 @@ func cellNames(k *kesDict, b []byte, first int) string {
 	return strings.Join(out, ",")
 }
 
+// kesd <depth> <period>: what the package does at depths around and beyond the 64-bit shift
+// width: MaxPeriod, SignatureSize, NewSumKesFromBytes + Verify on an all-zero signature of the
+// exact and of a wrong length, Sign and Update on an all-zero key of that depth.
+func g8RunKesDepth(f []string) string {
+	if len(f) != 3 {
+		return "bad-op"
+	}
+	depth, e1 := strconv.ParseUint(f[1], 10, 64)
+	period, e2 := strconv.ParseUint(f[2], 10, 64)
+	if e1 != nil || e2 != nil {
+		return "bad-op"
+	}
+	out := fmt.Sprintf("max=%d size=%d", kes.MaxPeriod(depth), kes.SignatureSize(depth))
+	if depth > 200 {
+		return out + " parse=- parse1=- v=- sign=- upd=-"
+	}
+	if depth == 0 {
+		_, err := kes.NewSumKesFromBytes(0, make([]byte, 64))
+		return out + " parse=" + map[bool]string{true: "ok", false: "err"}[err == nil] + " parse1=- v=- sign=- upd=-"
+	}
+	n := 64 + 64*int(depth)
+	parse, parse1, v := "ok", "ok", "-"
+	sig, err := kes.NewSumKesFromBytes(depth, make([]byte, n))
+	if err != nil {
+		parse = "err"
+	} else {
+		v = b01(sig.Verify(period, make([]byte, 32), []byte("m")))
+	}
+	if _, err := kes.NewSumKesFromBytes(depth, make([]byte, n+1)); err != nil {
+		parse1 = "err"
+	}
+	kind := func(err error) string {
+		if err == nil {
+			return "ok"
+		}
+		m := err.Error()
+		switch {
+		case strings.Contains(m, "exceeds maximum"):
+			return "err:period"
+		case strings.Contains(m, "cannot sign at period"):
+			return "err:wrong"
+		case strings.Contains(m, "exhausted"):
+			return "err:exhausted"
+		case strings.Contains(m, "erased"):
+			return "err:erased"
+		}
+		return "err:other"
+	}
+	sk := &kes.SecretKey{Depth: depth, Period: 0, Data: make([]byte, 32+96*int(depth))}
+	_, serr := kes.Sign(sk, period, []byte("m"))
+	_, uerr := kes.Update(sk)
+	return fmt.Sprintf("%s parse=%s parse1=%s v=%s sign=%s upd=%s", out, parse, parse1, v, kind(serr), kind(uerr))
+}
+
 func runC39(op string) string {
 	f := strings.Fields(op)
+	if len(f) > 0 && f[0] == "kesd" {
+		return g8RunKesDepth(f)
+	}
 	if len(f) < 12 || f[0] != "kes" {
 		return "bad-op"
 	}
@@ -556,6 +614,11 @@ func genC39(r *Rand, n int, tier string, emit func(string)) {
 		seeds = append(seeds, r.Bytes(32))
 	}
 	for i := 0; i < n; i++ {
+		if r.Chance(1, 25) {
+			dep := Pick(r, uint64(1), 6, 62, 63, 64, 65, 100, 200, 201, 1<<57-1, 1<<57, 1<<58, 1<<63, ^uint64(0), r.EdgeU64())
+			emit(fmt.Sprintf("kesd %d %d", dep, Pick(r, uint64(0), 0, 1, 1<<62, 1<<63, ^uint64(0), r.EdgeU64())))
+			continue
+		}
 		var d int
 		if tier == "thorough" {
 			d = Pick(r, 1, 2, 3, 4, 5, 6, 6, 7)
